@@ -164,10 +164,10 @@ def judge(run, frames, inflate=None, negotiated=False, auto_pong=True, check_wir
                 # the event-order rule below still catches any written afterwards
                 pe0 = next((e.idx for e in w.events if e.event.name == 'protocol_error'), 10 ** 9)
                 early = b''.join(x.data for x in w.writes[1:] if x.ev <= pe0)
-                n_early_pings = sum(1 for f in ref_ws.decode_client_stream(early)[0] if f.opcode == ref_ws.PING and not f.payload)
+                n_early_pings = sum(1 for f in ref_ws.decode_client_stream(early)[0] if f.opcode == ref_ws.PING)
                 kept = []
                 for fr in got_wire:
-                    if fr == (ref_ws.PING, b'') and n_early_pings > 0:
+                    if fr[0] == ref_ws.PING and n_early_pings > 0:
                         n_early_pings -= 1
                         continue
                     kept.append(fr)
